@@ -145,6 +145,9 @@ PURE_OBSERVERS = {'is_empty', 'len', 'is_some', 'is_none', 'is_ok', 'is_err', 'c
 INT_RANGE = {'u8': (0, 255), 'u16': (0, 65535), 'u32': (0, 2**32 - 1), 'u64': (0, 2**64 - 1), 'usize': (0, 2**64 - 1),
              'i8': (-128, 127), 'i16': (-32768, 32767), 'i32': (-2**31, 2**31 - 1), 'i64': (-2**63, 2**63 - 1), 'isize': (-2**63, 2**63 - 1)}
 UNIT = ('tuple', ())
+# terms of a local vector whose content the interpreter keeps track of: known elements; a vector + one pushed element; a vector +
+# the elements of a list (extend / extend_from_slice)
+TRACKED_VEC = ('vec', 'vecpush', 'concat')
 TRUE, FALSE = ('lit', True), ('lit', False)
 
 def int_log2(x):
@@ -337,6 +340,11 @@ class Interp:
                     outs = []
                 if len(outs) == 1 and outs[0].kind == 'val' and not outs[0].st.ev and outs[0].val[0] in ('array', 'tuple', 'ctor') and ground(outs[0].val):
                     cache[d] = outs[0].val
+                elif len(outs) == 1 and outs[0].kind == 'val' and range_value(outs[0].val) is not None \
+                        and all(b is None or b[0] == 'lit' for b in range_value(outs[0].val)[1:]) \
+                        and all(ev[0] == 'call' and ev[1] == 'core::ops::range::RangeInclusive::<Idx>::new' for ev in outs[0].st.ev):
+                    # a range of literals (`const R: RangeInclusive<u8> = b'a'..=b'z'`; `a..=b` is the call RangeInclusive::new(a, b))
+                    cache[d] = outs[0].val
         return cache[d]
 
     def ev_Tup(self, e, st):
@@ -384,7 +392,7 @@ class Interp:
     def ev_AddrOf(self, e, st):
         outs = self.ev(e['e'], st)
         inner = e['e']
-        if e.get('mut') and not self.places and inner.get('k') == 'Path' and inner.get('res') == 'local' and st.env.get(inner['bind'], ('unk',))[0] in ('vec', 'vecpush'):
+        if e.get('mut') and not self.places and inner.get('k') == 'Path' and inner.get('res') == 'local' and st.env.get(inner['bind'], ('unk',))[0] in TRACKED_VEC:
             # `&mut v` of a local whose elements are tracked is handed to code without a model (the modelled uses - encode_into,
             # mem::take / replace - are intercepted before their arguments are evaluated; with `places` the reference names the
             # place and writes through it are followed): it may change the vector, so the local no longer holds the tracked elements
@@ -396,7 +404,14 @@ class Interp:
         for o in self.ev(e['e'], st):
             if o.kind == 'val':
                 v = o.val
-                if v[0] == 'lit' and isinstance(v[1], int):
+                tty = hirq.strip_refs(str(e.get('ty') or ''))
+                if v[0] == 'lit' and isinstance(v[1], str) and len(v[1]) == 1 and tty in INT_RANGE and hirq.strip_refs(str(e['e'].get('ty') or '')) == 'char':
+                    # `ch as uN / iN`: the character's code point, then as between integers (below)
+                    v = ('lit', ord(v[1]))
+                if v[0] == 'lit' and isinstance(v[1], int) and not isinstance(v[1], bool) and tty == 'char' and 0 <= v[1] <= 255:
+                    # `b as char` (only u8 casts to char): the character whose code point is the octet
+                    outs.append(Out('val', ('lit', chr(v[1])), o.st))
+                elif v[0] == 'lit' and isinstance(v[1], int):
                     # `as` between integer types is exact on a literal: the value modulo 2^width of the target type, read in the
                     # target's signedness (truncation, sign- and zero-extension are all this one function of the value)
                     rng = INT_RANGE.get(hirq.strip_refs(str(e.get('ty') or '')))
@@ -1449,6 +1464,22 @@ class Interp:
                     else:
                         outs.append(o)
             return outs
+        if cal.rsplit('::', 1)[-1] in ('extend', 'extend_from_slice') and 'alloc::vec::Vec' in cal and len(e['args']) == 1 and not self.places \
+                and hirq.peel_refs(e['recv'])['k'] == 'Path' and hirq.peel_refs(e['recv']).get('res') == 'local' \
+                and st.env.get(hirq.peel_refs(e['recv'])['bind'], ('unk',))[0] in TRACKED_VEC \
+                and hirq.strip_refs(e['recv'].get('ty') or '').startswith('alloc::vec::Vec<') \
+                and hirq.strip_refs(e['args'][0].get('ty') or '').startswith(('alloc::vec::Vec<', '[')):
+            # local.extend(list) / local.extend_from_slice(list) on a local vector whose content is tracked: the same model as for a
+            # vector stored in a field (above) - afterwards the local holds its old elements followed by the elements of the argument,
+            # in order, for every receiver and argument; the call event is recorded exactly as for an unmodelled call
+            b = hirq.peel_refs(e['recv'])['bind']
+            res, abn = self.seq([e['args'][0]], st)
+            outs = list(abn)
+            for (arg,), s in res:
+                old = s.env.get(b, ('unk', 'vec'))
+                for o in self.call(cal, [old, arg], e, s):
+                    outs.append(Out('val', o.val, o.st.set(b, ('concat', old, arg))) if o.kind == 'val' else o)
+            return outs
         if cal.endswith('::copy_from_slice') and len(e['args']) == 1:
             # dst[a..b].copy_from_slice(src) on a local array whose length is known, from a sequence whose length is known (the elements
             # themselves may be symbolic): the elements a..b-1 are replaced one by one; a length mismatch is the method's panic
@@ -1499,7 +1530,7 @@ class Interp:
         recv = hirq.peel_refs(e['recv'])
         forget = None
         if recv['k'] == 'Path' and recv.get('res') == 'local' and str(e['recv'].get('adj_ty') or '').startswith('&mut') \
-                and st.env.get(recv['bind'], ('unk',))[0] in ('vec', 'vecpush') and cal.rsplit('::', 1)[-1] not in ('reserve', 'reserve_exact', 'shrink_to_fit'):
+                and st.env.get(recv['bind'], ('unk',))[0] in TRACKED_VEC and cal.rsplit('::', 1)[-1] not in ('reserve', 'reserve_exact', 'shrink_to_fit'):
             forget = recv['bind']
         for vals, s in res:
             for o in self.call(cal, vals, e, s):
@@ -1778,6 +1809,15 @@ class Interp:
                 # a literal against a range of literals is decided exactly
                 ok = (lo is None or lo['v'] <= v[1]) and (hi is None or v[1] < hi['v'] + (1 if 'Included' in (p.get('end') or '') else 0))
                 return [('yes' if ok else 'no', st)]
+            if v[0] == 'lit' and isinstance(v[1], int) and not isinstance(v[1], bool) and range_bounds(p) is not None:
+                # (the same with a negative literal as a bound)
+                lo_v, hi_v = range_bounds(p)
+                return [('yes' if (lo_v is None or lo_v <= v[1]) and (hi_v is None or v[1] <= hi_v) else 'no', st)]
+            if ordinal(v) is not None and ordinal(v)[0] == 'char' and all(b is None or (b.get('k') == 'PLit' and isinstance(b.get('v'), str) and len(b['v']) == 1) for b in (lo, hi)):
+                # a character against a range of character literals: `char` is ordered by code point
+                n = ordinal(v)[1]
+                ok = (lo is None or ord(lo['v']) <= n) and (hi is None or n < ord(hi['v']) + (1 if 'Included' in (p.get('end') or '') else 0))
+                return [('yes' if ok else 'no', st)]
             b = range_bounds(p)
             if b is not None:
                 # a symbolic integer against a range of literals is the comparison(s) it amounts to; a bound that is the type's own
@@ -1947,6 +1987,84 @@ def bin_term(op, a, b):
     if op == 'Ne':
         return ('not', ('bin', 'Eq', a, b))
     return ('bin', op, a, b)
+
+def ordinal(t):
+    """(kind, n) for a literal that std orders as the number n: an integer literal ('int', value); a character literal ('char', code
+    point) - `char`'s Ord is the order of code points.  (A character literal and a one-character string literal are the same term
+    here; a one-character string orders and compares like its character, so the answers agree.)  None for anything else."""
+    if t[0] != 'lit' or isinstance(t[1], bool):
+        return None
+    if isinstance(t[1], int):
+        return ('int', t[1])
+    if isinstance(t[1], str) and len(t[1]) == 1:
+        return ('char', ord(t[1]))
+    return None
+
+RANGE_FIELDS = {'Range': {'start', 'end'}, 'RangeFrom': {'start'}, 'RangeTo': {'end'}, 'RangeToInclusive': {'end'}, 'RangeFull': set()}
+RANGE_CONTAINS = re.compile(r'^(?:core::ops::range::(Range|RangeInclusive|RangeFrom|RangeTo|RangeToInclusive)::<Idx>::contains'
+                            r'|core::ops::range::RangeBounds::contains|<core::ops::range::Range\w*(?:<.*>)? as core::ops::range::RangeBounds<.*>>::contains)$')
+
+def range_value(t):
+    """(kind, start, end) of a value of one of std's range types, as the range expressions desugar: `a..b` Range { start, end },
+    `a..` RangeFrom { start }, `..b` RangeTo { end }, `..=b` RangeToInclusive { end }, `..` RangeFull (struct expressions), and
+    `a..=b` the call RangeInclusive::new(a, b) (a range that has not been iterated: start, end as given).  A bound the type does
+    not have is None.  None for any other term."""
+    if t[0] == 'struct' and len(t) >= 3:
+        kind = t[1].rsplit('::', 1)[-1]
+        if kind in RANGE_FIELDS and t[1] in ('range::' + kind, 'core::ops::range::' + kind) and (len(t) < 4 or t[3] is None):
+            fl = dict(t[2])
+            if set(fl) == RANGE_FIELDS[kind]:
+                return (kind, fl.get('start'), fl.get('end'))
+    if t[0] == 'call' and t[1] == 'core::ops::range::RangeInclusive::<Idx>::new' and len(t[2]) == 2:
+        return ('RangeInclusive', t[2][0], t[2][1])
+    return None
+
+def range_as_built(I, node, term, st):
+    """The range a method is called on still has the bounds of the expression that built it (a range is also an iterator: `next`
+    & co. move its start / end, and the term does not follow that): the receiver is the range expression itself or a local bound
+    immutably (not a `&mut`) or a `const` item, and no earlier call on this path received the same range value through a `&mut` (or consumed an
+    element of it: the ordinal cursor).  Anything else: not known (no model)."""
+    r = node.get('recv') if node.get('k') == 'MethodCall' else (node.get('args') or [None])[0]
+    if r is None:
+        return False
+    ty = str(r.get('adj_ty') or r.get('ty') or '')
+    r = hirq.peel_refs(r)
+    if r['k'] == 'Path' and r.get('res') == 'local':
+        d = I.body.defs.get(r['bind'])
+        if d is None or 'Mut' in (d['pat'].get('mode') or 'Mut').split(',')[-1] or str(r.get('ty') or '').startswith('&mut') or ty.startswith('&mut'):
+            return False
+    elif not (r['k'] in ('Struct', 'Call') or (r['k'] == 'Path' and (r.get('defkind') or '').startswith(('Const', 'AssocConst')))):
+        return False            # (a `const` item is its initialiser's value at every mention: a fresh range each time)
+    if st.heap.get(('cursor', term), 0):
+        return False
+    for ev in st.ev:
+        if ev[0] == 'call' and len(ev) > 3 and ev[2] and ev[2][0] == term and isinstance(ev[3], dict):
+            rn = ev[3].get('recv') if ev[3].get('k') == 'MethodCall' else (ev[3].get('args') or [None])[0]
+            if rn is not None and (str(rn.get('adj_ty') or rn.get('ty') or '').startswith('&mut') or rn.get('k') == 'AddrOf' and rn.get('mut')):
+                return False
+    return True
+
+def _cls(*parts):
+    s = set()
+    for p in parts:
+        s |= set(range(p[0], p[1] + 1)) if isinstance(p, tuple) else {p}
+    return frozenset(s)
+
+# the ASCII character classes of u8 / char, from the std documentation of each method (code points; nothing above 0x7f is in any)
+ASCII_CLASSES = {
+    'is_ascii': _cls((0x00, 0x7f)),
+    'is_ascii_alphabetic': _cls((0x41, 0x5a), (0x61, 0x7a)),
+    'is_ascii_uppercase': _cls((0x41, 0x5a)),
+    'is_ascii_lowercase': _cls((0x61, 0x7a)),
+    'is_ascii_alphanumeric': _cls((0x30, 0x39), (0x41, 0x5a), (0x61, 0x7a)),
+    'is_ascii_digit': _cls((0x30, 0x39)),
+    'is_ascii_octdigit': _cls((0x30, 0x37)),
+    'is_ascii_hexdigit': _cls((0x30, 0x39), (0x41, 0x46), (0x61, 0x66)),
+    'is_ascii_punctuation': _cls((0x21, 0x2f), (0x3a, 0x40), (0x5b, 0x60), (0x7b, 0x7e)),
+    'is_ascii_graphic': _cls((0x21, 0x7e)),
+    'is_ascii_whitespace': _cls(0x20, 0x09, 0x0a, 0x0c, 0x0d),        # space, tab, line feed, form feed, carriage return (not 0x0b)
+    'is_ascii_control': _cls((0x00, 0x1f), 0x7f),
+}
 
 def ground(t):
     """t is a completely known value: a literal, or a vector / array / tuple / constructor of completely known values"""
@@ -2373,6 +2491,48 @@ def builtin_summary(I, cal, args, node, st):
             if rng is not None:
                 fits = rng[0] <= args[0][1] <= rng[1]
                 return [Out('val', ('ctor', 'Ok', (args[0],)) if fits else ('ctor', 'Err', (('unk', 'TryFromIntError'),)), st)]
+    if name == 'contains' and len(args) == 2 and RANGE_CONTAINS.match(cal):
+        # range.contains(&x), std (RangeBounds::contains, to which every inherent `contains` of the range types delegates):
+        #   (match start_bound { Included(s) => s <= x, Unbounded => true }) && (match end_bound { Included(e) => x <= e,
+        #   Excluded(e) => x < e, Unbounded => true }),
+        # with the bounds `a..b` [a, b), `a..=b` [a, b], `a..` [a, inf), `..b` (-inf, b), `..=b` (-inf, b], `..` everything.
+        # Exact for all values: on literals it is computed; for a symbolic x (or bound) it is the conjunction of those comparisons.
+        rv = range_value(args[0])
+        m_ = RANGE_CONTAINS.match(cal)
+        if rv is not None and m_.group(1) in (None, rv[0]) and range_as_built(I, node, args[0], st):
+            kind, lo, hi = rv
+            x = args[1]
+            def cmp_(op, a, b):
+                oa, ob = ordinal(a), ordinal(b)
+                if oa is not None and ob is not None and oa[0] == ob[0]:
+                    return ('lit', {'Le': oa[1] <= ob[1], 'Lt': oa[1] < ob[1]}[op])
+                if a[0] == 'lit' and b[0] == 'lit':
+                    return None            # literals of kinds that are not compared here (floats, strings)
+                t = ('bin', op, a, b)
+                kn = st.known(t)
+                return ('lit', kn) if kn is not None else t
+            parts = []
+            if lo is not None:
+                parts.append(cmp_('Le', lo, x))
+            if hi is not None:
+                parts.append(cmp_('Le' if kind in ('RangeInclusive', 'RangeToInclusive') else 'Lt', x, hi))
+            if all(p is not None for p in parts):
+                r = TRUE
+                for p in parts:
+                    r = bin_term('And', r, p)
+                return [Out('val', r, st)]
+    if name in ASCII_CLASSES and len(args) == 1 and (cal == 'core::num::<impl u8>::' + name or cal == 'core::char::methods::<impl char>::' + name):
+        # u8::is_ascii_* / char::is_ascii_* of a known octet / character: the class tables of the std documentation (a character
+        # outside ASCII is in none of them)
+        o = ordinal(args[0])
+        if o is not None and o[0] == ('int' if 'impl u8' in cal else 'char'):
+            return [Out('val', ('lit', o[1] in ASCII_CLASSES[name]), st)]
+    if name == 'contains' and len(args) == 2 and cal == 'core::slice::<impl [T]>::contains' and ordinal(args[1]) is not None:
+        # slice.contains(&x) = some element equals x; decided when x and every element are known integers / characters of one kind
+        xs = [('lit', b) for b in args[0][1]] if args[0][0] == 'lit' and isinstance(args[0][1], bytes) else \
+            list(args[0][1]) if args[0][0] in ('array', 'vec') else None
+        if xs is not None and all(ordinal(e) is not None and ordinal(e)[0] == ordinal(args[1])[0] for e in xs):
+            return [Out('val', ('lit', any(ordinal(e) == ordinal(args[1]) for e in xs)), st)]
     if name in ('is_empty', 'len') and args and args[0][0] == 'lit' and isinstance(args[0][1], (bytes, str)):
         return [Out('val', ('lit', len(args[0][1]) == 0 if name == 'is_empty' else len(args[0][1])), st)]
     if name == 'input_len' and 'nom::traits::InputLength' in cal and len(args) == 1 and args[0][0] == 'lit' and isinstance(args[0][1], (bytes, str)):
